@@ -572,6 +572,28 @@ func strings_HasPrefix(s, p string) bool { return len(s) >= len(p) && s[:len(p)]
 func r08_3(c *Ctx) { replayShape(c, "FiniteReplayer") }
 func r09_7(c *Ctx) { replayShape(c, "ValidReplayer") }
 
+// R08.7 / R09.9: the slice of the Replay shape that other properties rest on: a Send error stops
+// the replay and is what Replay returns (C17: the failing subscriber gets its error), and a replay
+// that sent everything ends with Flush (C03: every Send is followed by a Flush before Joe goes idle).
+func replayTail(c *Ctx, only string) {
+	c.keep = func(construct string) bool {
+		return strings.HasSuffix(construct, ":callback-error") || strings.HasSuffix(construct, ":tail") || strings.HasSuffix(construct, ":shape")
+	}
+	replayShape(c, only)
+	c.keep = nil
+}
+
+func init() {
+	register(&Rule{ID: "R08.7", Title: "FiniteReplayer.Replay: a Send error stops the replay and is returned; a complete replay ends with Flush", Floor: 2, Run: func(c *Ctx) { replayTail(c, "FiniteReplayer") }})
+	register(&Rule{ID: "R09.9", Title: "ValidReplayer.Replay: a Send error stops the replay and is returned; a complete replay ends with Flush", Floor: 2, Run: func(c *Ctx) { replayTail(c, "ValidReplayer") }})
+	for _, id := range []string{"C03", "C17"} {
+		if p := properties[id]; p != nil {
+			p.Rules = append(p.Rules, "R08.7", "R09.9")
+			p.Explanation += " R08.7/R09.9 (the error/flush slice of the Replay shape rules): in both replayers a failed Send makes the per-element callback return false with that error kept, Replay returns it without flushing, and a replay that sent everything ends with Flush, whose error is returned."
+		}
+	}
+}
+
 func replayShape(c *Ctx, only string) {
 	P := c.P
 	n := 0
@@ -1524,6 +1546,12 @@ func r19_1(c *Ctx) {
 				return
 			}
 			root, through := messageRoot(addr)
+			if _, isStore := in.(*ssa.Store); isStore && !through && isPtrToMessage(addr.Type()) {
+				// `*p = v` with p a *Message: the whole message is overwritten
+				if _, isAlloc := addr.(*ssa.Alloc); !isAlloc {
+					root, through = stripPhi(addr), true
+				}
+			}
 			if !through {
 				return
 			}
@@ -1573,6 +1601,15 @@ func messageRoot(addr ssa.Value) (root ssa.Value, through bool) {
 		}
 	}
 	return v, false
+}
+
+func isPtrToMessage(t types.Type) bool {
+	p, ok := t.Underlying().(*types.Pointer)
+	if !ok {
+		return false
+	}
+	n, ok := p.Elem().(*types.Named)
+	return ok && n.Obj().Name() == "Message" && n.Obj().Pkg() != nil && n.Obj().Pkg().Path() == modPath
 }
 
 func stripPhi(v ssa.Value) ssa.Value {
@@ -2291,4 +2328,491 @@ func r18_7(c *Ctx) {
 	for s, r := range stores {
 		c.check(!r.bad, name, P.ipos(s), "head is written only on paths where the ring was full", "enqueue writes q.head on a path on which the ring was not full: the read index jumps and buffered (unexpired, not yet evicted) events become unreachable for replay")
 	}
+}
+
+// ---------------------------------------------------------------------------
+// R08.6: the ID lookup recognises exactly the language the issuer writes, treats only strictly
+// older IDs as evicted, and wraps ring positions by the bound it compared them with.
+
+func init() {
+	register(&Rule{ID: "R08.6", Title: "ID lookup: decimal 64-bit parse (as issued), `evicted` only for strictly older IDs, ring positions wrapped by the bound they were compared with", Floor: 3, Run: r08_6})
+	for _, id := range []string{"C08", "C09", "C04"} {
+		if p := properties[id]; p != nil {
+			p.Rules = append(p.Rules, "R08.6")
+			p.Explanation += " R08.6 in findIDInQueue every strconv.ParseUint has the constants base 10 / 64 bits (the issuer writes FormatUint(n, 10)); a return of q.head (\"the ID was evicted: replay everything\") is reached only on the strict edge presented < oldest of the comparison of the two parsed IDs; and, in findIDInQueue and the queue methods, a value that is reduced by B under a comparison with A has A ≡ B (Engler-style contradiction rule: `if i >= len(buf) { i -= count }` is reported)."
+		}
+	}
+}
+
+// exprShape: a canonical rendering of a pure expression in which two loads of the same field path
+// are equal (used for "compared with A, then reduced by B" consistency).
+func exprShape(v ssa.Value, depth int) string {
+	if depth > 8 {
+		return "…"
+	}
+	switch x := v.(type) {
+	case *ssa.Const:
+		if x.Value == nil {
+			return "nil"
+		}
+		return x.Value.ExactString()
+	case *ssa.Parameter:
+		return "param:" + x.Name()
+	case *ssa.FreeVar:
+		return "free:" + x.Name()
+	case *ssa.Extract:
+		return x.Tuple.Name() + "#" + itoa(x.Index)
+	case *ssa.Convert:
+		return exprShape(x.X, depth+1)
+	case *ssa.ChangeType:
+		return exprShape(x.X, depth+1)
+	case *ssa.BinOp:
+		return "(" + exprShape(x.X, depth+1) + x.Op.String() + exprShape(x.Y, depth+1) + ")"
+	case *ssa.FieldAddr:
+		return exprShape(x.X, depth+1) + "." + itoa(x.Field)
+	case *ssa.Field:
+		return exprShape(x.X, depth+1) + "." + itoa(x.Field)
+	case *ssa.IndexAddr:
+		return exprShape(x.X, depth+1) + "[" + exprShape(x.Index, depth+1) + "]"
+	case *ssa.UnOp:
+		if x.Op == token.MUL {
+			return "*" + exprShape(x.X, depth+1)
+		}
+		return x.Op.String() + exprShape(x.X, depth+1)
+	case *ssa.Call:
+		if b, ok := x.Call.Value.(*ssa.Builtin); ok && len(x.Call.Args) == 1 {
+			return b.Name() + "(" + exprShape(x.Call.Args[0], depth+1) + ")"
+		}
+	case *ssa.Phi:
+		return "phi:" + x.Name()
+	}
+	return v.Name()
+}
+
+func r08_6(c *Ctx) {
+	P := c.P
+	var fn *ssa.Function
+	var queueFns []*ssa.Function
+	for _, f := range P.Funcs {
+		if f.Synthetic != "" || !inSSEPackage(f) {
+			continue
+		}
+		if f.Parent() == nil && f.Name() == "findIDInQueue" {
+			fn = f
+		}
+		if f.Signature.Recv() != nil && typeIs(f.Signature.Recv().Type(), "sse", "queue") {
+			queueFns = append(queueFns, f)
+		}
+	}
+	if fn == nil {
+		c.anchor("findIDInQueue")
+		return
+	}
+	name := fnLabel(fn)
+	// the lookup may be split over unexported (generic) helpers: take the module functions it calls as well
+	lookupFns := []*ssa.Function{fn}
+	{
+		seen := map[*ssa.Function]bool{fn: true}
+		for i := 0; i < len(lookupFns) && i < 8; i++ {
+			eachInstrDeep(lookupFns[i], func(in ssa.Instruction) {
+				call, ok := in.(*ssa.Call)
+				if !ok {
+					return
+				}
+				callee := call.Call.StaticCallee()
+				if callee == nil || callee.Blocks == nil || seen[callee] || !inSSEPackage(callee) || callee.Signature.Recv() != nil {
+					return
+				}
+				if orig := callee.Origin(); orig != nil && orig.Blocks != nil {
+					callee = orig
+					if seen[callee] {
+						return
+					}
+				}
+				if callee.Signature.Results().Len() != 1 || callee.Signature.Results().At(0).Type().String() != "int" {
+					return
+				}
+				seen[callee] = true
+				lookupFns = append(lookupFns, callee)
+			})
+		}
+	}
+	fromHeadElemOf := func(call *ssa.Call) bool { return parsedFromHead(call) }
+	// (a) parse agrees with issue
+	var parses []*ssa.Call
+	for _, lf := range lookupFns {
+		eachInstrDeep(lf, func(in ssa.Instruction) {
+			if call, ok := isStaticCall(in, "strconv.ParseUint", "strconv.ParseInt", "strconv.Atoi"); ok {
+				parses = append(parses, call)
+			}
+		})
+	}
+	for i, call := range parses {
+		okk := calleeName(call) == "strconv.ParseUint"
+		if okk {
+			base, isB := constInt(call.Call.Args[1])
+			bits, isS := constInt(call.Call.Args[2])
+			okk = isB && base == 10 && isS && bits == 64
+		}
+		c.check(okk, name+":parse#"+itoa(i), P.ipos(call), "IDs are recognised with ParseUint(s, 10, 64), the inverse of the issuer's FormatUint(n, 10)",
+			"an automatic ID is not parsed as a 64-bit base-10 unsigned number: strings the issuer never wrote (0x3, 0b11, 1_0, …) are accepted as buffered IDs, or issued IDs are not recognised")
+	}
+	// (d) canonical form: ParseUint also accepts decimal strings the issuer never writes (leading
+	// zeros: "010" parses to 10); the presented ID must be checked to be in the issuer's form
+	for i, call := range parses {
+		if fromHeadElemOf(call) {
+			continue // the stored ID was written by the issuer
+		}
+		sArg := call.Call.Args[0]
+		sameS := func(v ssa.Value) bool { return v == sArg || exprShape(v, 0) == exprShape(sArg, 0) }
+		f := call.Parent()
+		onlyMinusOne := func(b *ssa.BasicBlock, e int) bool {
+			ok, any := true, false
+			forward([]startPoint{atEdge(b, e)}, func(in ssa.Instruction) searchAction {
+				if r, isR := in.(*ssa.Return); isR {
+					any = true
+					if k, isK := constInt(r.Results[0]); !isK || k != -1 {
+						ok = false
+					}
+				}
+				return cont
+			})
+			return ok && any
+		}
+		canonical := false
+		for _, ifi := range ifsIn(f) {
+			cnd := decodeIf(ifi)
+			if cnd.Y == nil || (cnd.Op != token.EQL && cnd.Op != token.NEQ) {
+				continue
+			}
+			// A: s != FormatUint(parsed, 10)  =>  -1
+			isFmt := func(v ssa.Value) bool {
+				fc, ok := isStaticCall(v, "strconv.FormatUint")
+				if !ok {
+					return false
+				}
+				e, isE := fc.Call.Args[0].(*ssa.Extract)
+				base, isK := constInt(fc.Call.Args[1])
+				return isE && e.Tuple == ssa.Value(call) && e.Index == 0 && isK && base == 10
+			}
+			if (sameS(cnd.X) && isFmt(cnd.Y)) || (sameS(cnd.Y) && isFmt(cnd.X)) {
+				if onlyMinusOne(ifi.Block(), cnd.succWhen(cnd.Op == token.NEQ)) {
+					canonical = true
+				}
+			}
+			// B: len(s) > 1 && s[0] == '0'  =>  -1
+			var x, ix ssa.Value
+			switch q := cnd.X.(type) {
+			case *ssa.Index:
+				x, ix = q.X, q.Index
+			case *ssa.Lookup:
+				x, ix = q.X, q.Index
+			}
+			if x != nil && sameS(x) {
+				i0, isI := constInt(ix)
+				k, isK := constInt(cnd.Y)
+				if isI && i0 == 0 && isK && k == '0' {
+					e := cnd.succWhen(cnd.Op == token.EQL)
+					if onlyMinusOne(ifi.Block(), e) && intGuard(f, ifi.Block(), isLenCallOf(sameS), 0, 2, posInf) {
+						canonical = true
+					}
+				}
+			}
+		}
+		c.check(canonical, name+":canonical#"+itoa(i), P.ipos(call), "a presented ID that is not in the issuer's form (leading zeros) is rejected",
+			"the presented ID is accepted whenever it parses as a decimal number, although the issuer (FormatUint) never writes leading zeros: the never-issued ID \"010\" is treated as the buffered ID 10 and everything after it is replayed")
+	}
+	// (b) evicted only when strictly older
+	isParsed := func(v ssa.Value) (*ssa.Call, bool) {
+		e, ok := v.(*ssa.Extract)
+		if !ok || e.Index != 0 {
+			return nil, false
+		}
+		for _, p := range parses {
+			if e.Tuple == ssa.Value(p) {
+				return p, true
+			}
+		}
+		return nil, false
+	}
+	fromHeadElem := parsedFromHead
+	var lookupRegion []*ssa.Function
+	for _, lf := range lookupFns {
+		lookupRegion = append(lookupRegion, regionFuncs(lf)...)
+	}
+	for _, f := range lookupRegion {
+		for _, ifi := range ifsIn(f) {
+			cnd := decodeIf(ifi)
+			if cnd.Y == nil {
+				continue
+			}
+			px, okx := isParsed(cnd.X)
+			py, oky := isParsed(cnd.Y)
+			if !okx || !oky || px == py {
+				continue
+			}
+			// orient: presented OP oldest
+			op := cnd.Op
+			if fromHeadElem(px) && !fromHeadElem(py) {
+				op = flipOp(op)
+			} else if !(fromHeadElem(py) && !fromHeadElem(px)) {
+				continue
+			}
+			// which edge establishes presented < oldest (strictly), which only presented <= oldest
+			var strict, loose = -1, -1
+			switch op {
+			case token.LSS:
+				strict = cnd.succWhen(true)
+			case token.GEQ:
+				strict = cnd.succWhen(false)
+			case token.LEQ:
+				loose = cnd.succWhen(true)
+			case token.GTR:
+				loose = cnd.succWhen(false)
+			default:
+				continue
+			}
+			for ri, ret := range returnsOf(f) {
+				isHead := false
+				for _, s := range sources(ret.Results[0]) {
+					if _, ok := isFieldLoad(s, "queue", "head"); ok {
+						isHead = true
+					}
+				}
+				if !isHead {
+					continue
+				}
+				rn := name + ":evicted-return#" + itoa(ri)
+				if strict >= 0 && edgeDominates(ifi.Block(), strict, ret.Block()) {
+					c.ok(rn, P.ipos(ret), "q.head (replay everything) is returned only when the presented ID is strictly older than the oldest buffered one")
+				} else if loose >= 0 && edgeDominates(ifi.Block(), loose, ret.Block()) {
+					c.bad(rn, P.ipos(ret), "q.head (replay everything) is also returned when the presented ID equals the oldest buffered ID: that event is replayed again (duplicate at the resume boundary)")
+				}
+			}
+		}
+	}
+	// (c) compared with A, reduced by B  =>  A ≡ B
+	for _, f := range append(append([]*ssa.Function{}, lookupFns...), queueFns...) {
+		for _, g := range regionFuncs(f) {
+			k := 0
+			eachInstr(g, func(in ssa.Instruction) {
+				sub, ok := in.(*ssa.BinOp)
+				if !ok || sub.Op != token.SUB {
+					return
+				}
+				if _, isK := sub.Y.(*ssa.Const); isK {
+					return
+				}
+				xs := exprShape(sub.X, 0)
+				for _, ifi := range ifsIn(g) {
+					cnd := decodeIf(ifi)
+					if cnd.Y == nil {
+						continue
+					}
+					var bound ssa.Value
+					op := cnd.Op
+					if exprShape(cnd.X, 0) == xs || cnd.X == sub.X {
+						bound = cnd.Y
+					} else if exprShape(cnd.Y, 0) == xs || cnd.Y == sub.X {
+						bound = cnd.X
+						op = flipOp(op)
+					} else {
+						continue
+					}
+					var e int
+					switch op {
+					case token.GEQ, token.GTR, token.EQL:
+						e = cnd.succWhen(true)
+					case token.LSS, token.LEQ, token.NEQ:
+						e = cnd.succWhen(false)
+					default:
+						continue
+					}
+					if !edgeDominates(ifi.Block(), e, sub.Block()) {
+						continue
+					}
+					k++
+					nm := fnLabel(g) + ":reduce-by-bound#" + itoa(k)
+					c.check(exprShape(bound, 0) == exprShape(sub.Y, 0), nm, P.ipos(sub), "the value is reduced by the bound it was compared with",
+						"a position is compared with one quantity ("+exprShape(bound, 0)+") but reduced by another ("+exprShape(sub.Y, 0)+"): the wrapped ring index is wrong whenever the two differ (e.g. a ring that is not full)")
+				}
+			})
+		}
+	}
+}
+
+// ---------------------------------------------------------------------------
+// R09.8: a shrinking resize leaves room (new size > count), so that tail = count stays a valid
+// position (< len(buf)) — findIDInQueue's "newest ID" test and enqueue rely on it.
+
+func init() {
+	register(&Rule{ID: "R09.8", Title: "a shrinking resize is requested only with a size provably larger than the element count", Floor: 1, Run: r09_8})
+	for _, id := range []string{"C09", "C04"} {
+		if p := properties[id]; p != nil {
+			p.Rules = append(p.Rules, "R09.8")
+			p.Explanation += " R09.8 every resize(len(buf)/k2 floored by a constant f) under a guard count <= len(buf)/k1 has k1 >= 2*k2 and f >= 1 (then the new size exceeds count for every len), and is reported when k1 <= k2 (then count == new size is reachable: resize leaves tail == len(buf), the newest-ID test misfires and a full replay is sent); other ratios are recorded as not decided."
+		}
+	}
+}
+
+func r09_8(c *Ctx) {
+	P := c.P
+	n := 0
+	for _, fn := range P.Funcs {
+		if !inSSEPackage(fn) || fn.Synthetic != "" {
+			continue
+		}
+		eachInstr(fn, func(in ssa.Instruction) {
+			call, ok := in.(*ssa.Call)
+			if !ok || isQueueCall(call, "resize") == nil || len(call.Call.Args) != 2 {
+				return
+			}
+			// argument: len(buf)/k2, possibly floored by a constant
+			var k2, floor int64 = 0, 0
+			shape := true
+			for _, s := range sources(call.Call.Args[1]) {
+				if k, isK := constInt(s); isK {
+					if k > floor {
+						floor = k
+					}
+					continue
+				}
+				b, isB := s.(*ssa.BinOp)
+				if !isB || (b.Op != token.QUO && b.Op != token.SHR) || !isLenOfQueueBuf(b.X) {
+					shape = false
+					continue
+				}
+				k, isK := constInt(b.Y)
+				if !isK || k <= 0 {
+					shape = false
+					continue
+				}
+				if b.Op == token.SHR {
+					k = 1 << uint(k)
+				}
+				k2 = k
+			}
+			if !shape || k2 == 0 {
+				return // a growing resize (R09.4) or another form
+			}
+			n++
+			name := fnLabel(fn) + ":shrink-keeps-room"
+			// guard: count <= len(buf)/k1 (or count < len(buf)/k1)
+			var k1 int64
+			strictLess := false
+			for _, ifi := range ifsIn(fn) {
+				cnd := decodeIf(ifi)
+				if cnd.Y == nil {
+					continue
+				}
+				x, y, op := cnd.X, cnd.Y, cnd.Op
+				if _, isCnt := isFieldLoad(y, "queue", "count"); isCnt {
+					x, y, op = y, x, flipOp(op)
+				}
+				if _, isCnt := isFieldLoad(x, "queue", "count"); !isCnt {
+					continue
+				}
+				b, isB := y.(*ssa.BinOp)
+				if !isB || (b.Op != token.QUO && b.Op != token.SHR) || !isLenOfQueueBuf(b.X) {
+					continue
+				}
+				k, isK := constInt(b.Y)
+				if !isK || k <= 0 {
+					continue
+				}
+				if b.Op == token.SHR {
+					k = 1 << uint(k)
+				}
+				var e int
+				switch op {
+				case token.LEQ:
+					e = cnd.succWhen(true)
+				case token.LSS:
+					e = cnd.succWhen(true)
+					strictLess = true
+				case token.GTR:
+					e = cnd.succWhen(false)
+				case token.GEQ:
+					e = cnd.succWhen(false)
+					strictLess = true
+				default:
+					continue
+				}
+				if edgeDominates(ifi.Block(), e, call.Block()) {
+					k1 = k
+				}
+			}
+			switch {
+			case k1 == 0:
+				c.ok(name, P.ipos(call), "not decided: no `count <= len(buf)/k` guard recognised for this shrinking resize")
+			case k1 >= 2*k2 && floor >= 1:
+				c.ok(name, P.ipos(call), "count <= len/"+itoa(int(k1))+" and new size = max(len/"+itoa(int(k2))+", "+itoa(int(floor))+") > count for every len")
+			case k1 <= k2 && !strictLess:
+				c.bad(name, P.ipos(call), "the buffer is shrunk to len/"+itoa(int(k2))+" whenever count <= len/"+itoa(int(k1))+": count can equal (or exceed) the new size, so resize leaves tail == len(buf) (or drops elements); presenting the newest ID then replays the whole buffer")
+			default:
+				c.ok(name, P.ipos(call), "not decided: thresholds len/"+itoa(int(k1))+" vs len/"+itoa(int(k2))+" need arithmetic this rule does not do")
+			}
+		})
+	}
+	if n == 0 {
+		c.ok("shrink-keeps-room", "-", "no shrinking resize in the module")
+	}
+}
+
+func isLenOfQueueBuf(v ssa.Value) bool {
+	call, ok := v.(*ssa.Call)
+	if !ok {
+		return false
+	}
+	b, ok := call.Call.Value.(*ssa.Builtin)
+	if !ok || b.Name() != "len" || len(call.Call.Args) != 1 {
+		return false
+	}
+	_, isBuf := isFieldLoad(call.Call.Args[0], "queue", "buf")
+	return isBuf
+}
+
+// parsedFromHead: the string parsed by call derives from q.buf[q.head] (the oldest stored ID).
+func parsedFromHead(call *ssa.Call) bool {
+	// the parsed string derives from q.buf[q.head]
+	found := false
+	var walk func(v ssa.Value, d int)
+	walk = func(v ssa.Value, d int) {
+		if d > 8 || found {
+			return
+		}
+		switch x := v.(type) {
+		case *ssa.Call:
+			for _, a := range x.Call.Args {
+				walk(a, d+1)
+			}
+			if x.Call.IsInvoke() {
+				walk(x.Call.Value, d+1)
+			}
+		case *ssa.UnOp:
+			walk(x.X, d+1)
+		case *ssa.IndexAddr:
+			if _, ok := isFieldLoad(x.Index, "queue", "head"); ok {
+				found = true
+			}
+		case *ssa.MakeInterface:
+			walk(x.X, d+1)
+		case *ssa.ChangeType:
+			walk(x.X, d+1)
+		case *ssa.Convert:
+			walk(x.X, d+1)
+		case *ssa.Extract:
+			walk(x.Tuple, d+1)
+		case *ssa.Field:
+			walk(x.X, d+1)
+		case *ssa.FieldAddr:
+			walk(x.X, d+1)
+		case *ssa.Phi:
+			for _, e := range x.Edges {
+				walk(e, d+1)
+			}
+		}
+	}
+	walk(call.Call.Args[0], 0)
+	return found
 }
